@@ -89,6 +89,6 @@ add("C20", "exploration", "complete enumeration of finite tables: 36 metrics + 2
 ENGINES.append({"name": "SCHED", "path": "sched/instr (AST rewriter), sched/verifsched (controlled scheduler + sync/atomic shims), mc/cmd/sched (explorer), mc/cmd/racepass, mc/internal/scen",
      "serves_properties": ["C16"],
      "kind_free_text": "stateless depth-first enumeration of all schedules of small closed drivers up to a preemption bound (iterative context bounding) on the real code, instrumented at check time with a scheduling point before every statement that can touch shared state; plus a free-running -race pass (DESIGN.md 5.4)"})
-add("C16", "model_checking", "stateless model checking of the real code under a controlled scheduler: all schedules of 494 two-/three-thread scenarios up to preemption bound 1/2 (iterative context bounding, static partial-order reduction of local-only statements), results compared with the sequential run; plus a separate free-running race-detector pass",
-    "Every schedule with at most 1 preemption for every pair of the 20-operation catalogue (shared and distinct receivers), six mixed 3-thread scenarios, every multiset of three short queries on one shared object and five bulk scenarios (20 operations in one thread against one in the other, export readers drained after a driver pause), at most 2 preemptions for short operations (quick) / all scenarios (thorough); determinism of replay is checked on every scenario.",
+add("C16", "model_checking", "stateless model checking of the real code under a controlled scheduler: all schedules of 500 two-/three-thread scenarios up to preemption bound 1/2 (iterative context bounding, static partial-order reduction of local-only statements), results compared with the sequential run; plus a separate free-running race-detector pass",
+    "Every schedule with at most 1 preemption for every pair of the 20-operation catalogue (shared and distinct receivers), six mixed 3-thread scenarios, every multiset of three short queries on one shared object five bulk scenarios (20 operations in one thread against one in the other, export readers drained after a driver pause) and six tiny-decode scenarios, at most 2 preemptions for short operations (quick) / all scenarios (thorough); determinism of replay is checked on every scenario.",
     "Assumes statement-level atomicity and sequential consistency; code outside the library packages is atomic between scheduling points; the race detector pass is sampling, not exhaustive. If the instrumented build cannot be produced for a changed tree the check degrades to the race pass alone and says so.", "5.4, 6 (C16)", "SCHED")
